@@ -1087,6 +1087,15 @@ void op_validate_t(Cur &c, Out &o)
     const size_t urows = (ndistinct && usize % ndistinct == 0 && usize) ? ndistinct : usize;
     const size_t ucols = urows ? usize / urows : 1;
     Matrix<double> u(urows, ucols, ud), v(3, 2, pattern(6));
+    // optional: the caller moved the values out of `u` (into a results store, say) and hands the same object in again:
+    // it holds no element any more, whatever its dimensions say
+    const bool umoved = c.p < c.t.size() ? c.nat() == 1 : false;
+    if (umoved)
+    {
+        Matrix<double> sink(std::move(u));
+        ud.clear();
+        (void)sink;
+    }
     std::vector<size_t> labels(3, 777);
     utils::RandomGenerator<> rng{(std::time_t)1};
     auto untouched = [&]() {
